@@ -2,14 +2,14 @@ SPECIFICATION Spec
 CONSTANTS
   Sids = {1,2}
   Threads = {1,2}
-  Deadlines = {0,1,3}
+  Deadlines = {1}
   MaxNow = 2
-  MaxSaves = 3
+  MaxSaves = 2
   Backend = "files"
   Net = FALSE
   IntMax = 1000
   GcBatch = 1
   Bug = "none"
 CONSTRAINT Bounded
-INVARIANTS TypeOK LoadCorrect LoadExactSeq LiveKept HeldSound IndexConsistent
+INVARIANTS TypeOK LoadCorrect LiveKept HeldSound IndexConsistent
 PROPERTIES MemGcProgress FileGcComplete OnlyExpiredVanish
